@@ -63,6 +63,10 @@ def variants(case, vocab, rot, allow_ph):
     for name, f in P.items():
         out.append(("reorder-" + name, hedgen.render(case, vocab, rot, allow_ph=allow_ph, style=0, perm=f)[0]))
     out.append(("mixedcase", hedgen.render(case, vocab, rot, allow_ph=allow_ph, style=0, casing=3)[0]))
+    out.append(("mixedupper", hedgen.render(case, vocab, rot, allow_ph=allow_ph, style=0, casing=4)[0]))
+    if not case.get("dup"):      # member order differing from group to group (two written-alike groups no longer are)
+        for k in range(2):
+            out.append(("reorder-shuffle%d" % k, hedgen.render(case, vocab, rot, allow_ph=allow_ph, style=0, perm=_shuffler(rot + k))[0]))
     out.append(("reorder-mixedcase", hedgen.render(case, vocab, rot, allow_ph=allow_ph, style=0, casing=3, perm=P["rotate"])[0]))
     out.append(("all", hedgen.render(case, vocab, rot, allow_ph=allow_ph, style=2, perm=P["reverse"], forms=rot + 1, casing=1)[0]))
     return out
